@@ -185,22 +185,68 @@ def r18_3(ctx):
             ctx.ok(('parse_ack', nm))
         else:
             ctx.bad(f"parse_ack|{nm}", f"{nm} is not relative to `now`", body=pa)
-    # poll_at in the bound state: min(.., expires_at) at the root on every alternative
+    # poll_at in the bound state: every value that reaches the reported instant is min(.., expires_at), expires_at itself,
+    # or is passed on only behind `value <= expires_at` (the if-form of the clamp)
     p = ctx.method(D, 'poll_at')
-    r = simplify(ret_origin(F, p))
-    okp = True
-    t_alts = []
-    for a in alts(r):
-        if a[0] == 'agg' and a[1].endswith('PollAt::Time'):
-            t_alts += alts(a[2][0])
-    for a in t_alts:
-        ls = leafs(a)
-        if any(l.startswith(f"F:{RS}.") for l in ls):
-            if not (is_call(a, '::min', nargs=2) and any(is_field(x, RS, 'expires_at') for x in call_args(a))):
-                okp = False
-                ctx.bad("poll_at|beyond-expiry", f"bound-state poll deadline {show(a)[:80]} is not clamped by expires_at: the Deconfigured event "
-                        "can come late and the address outlive its lease", body=p)
-    if okp and t_alts:
+    defs = p._all_defs()
+    is_exp = lambda n: is_field(strip(n), RS, 'expires_at')
+    clamped_call = lambda a: is_call(a, '::min', nargs=2) and any(is_exp(x) for x in call_args(a))
+    state = dict(n=0, bad=[])
+
+    def walk(local, seen):
+        if local in seen:
+            return
+        seen = seen | {local}
+        for (bi, si, kind, path, rv) in defs.get(local, []):
+            if path != []:
+                continue
+            if kind == 'call':
+                v = simplify(F.origin.call_node(p, rv, bi, 0, None))
+            elif kind == 'a':
+                v = simplify(F.origin.rvalue(p, rv, bi, si, 0, None))
+            else:
+                continue
+            if not any(l.startswith(f"F:{RS}.") for l in leafs(v)):
+                continue
+            state['n'] += 1
+            if is_exp(v) or clamped_call(strip(v)):
+                continue
+            vs, vl = strip(v), leafs(v)
+
+            def le_exp(f, vs=vs, vl=vl):
+                if f[0] != 'rel':
+                    return False
+                if f[1] in ('Ge', 'Gt'):
+                    e, x = f[2], f[3]
+                elif f[1] in ('Le', 'Lt'):
+                    e, x = f[3], f[2]
+                else:
+                    return False
+                x = simplify(x)
+                return is_exp(simplify(e)) and (strip(x) == vs or leafs(x) == vl)
+            if not unguarded(F, p, [bi], le_exp):
+                continue
+            if kind == 'a' and rv[0] == 'use' and is_place_op(rv[1]) and rv[1][1][1] == []:
+                walk(rv[1][1][0], seen)
+                continue
+            state['bad'].append(v)
+    roots = []
+    for bi, bl in enumerate(p.blocks):
+        if bl['cl']:
+            continue
+        for si, st in enumerate(bl['s']):
+            if st[0] == 'a' and st[2][0] == 'agg' and st[2][2] and is_place_op(st[2][2][0]) and st[2][2][0][1][1] == []:
+                o = strip(simplify(F.origin.rvalue(p, st[2], bi, si, 0, None)))
+                if o[0] == 'agg' and o[1].endswith('PollAt::Time'):
+                    roots.append(st[2][2][0][1][0])
+    ctx.need(roots, "PollAt::Time(t) built from a local in dhcpv4::poll_at")
+    for r_ in roots:
+        walk(r_, frozenset())
+    ctx.need(state['n'] >= 1, "lease instants of the bound state flowing into the dhcpv4 poll deadline")
+    for a in state['bad']:
+        ctx.bad("poll_at|beyond-expiry", f"bound-state poll deadline {show(a)[:80]} is not clamped by expires_at: the Deconfigured event "
+                "can come late and the address outlive its lease", body=p)
+    if not state['bad']:
         ctx.ok(('poll_at', 'clamped'), sample=dict(fn='dhcpv4::poll_at', bound_state='min(.., expires_at)'))
 
 
@@ -303,26 +349,34 @@ def r18_5(ctx):
 def r18_7(ctx):
     F = ctx.F
     n = 0
-    for nm in ('parse_ack', 'process'):
-        b = F.method(D, nm)
+    pa = F.method(D, 'parse_ack')
+    hb, actual = dhcp_t12_body(F, pa) if pa is not None else (None, {})
+    for nm in ('parse_ack', 'process', 'helper'):
+        b = F.method(D, nm) if nm != 'helper' else (hb if actual else None)
         if b is None:
             continue
+        extra = set()
+        if nm == 'helper':
+            nm = 'parse_ack'
+            # server-supplied values the helper receives as parameters
+            extra = {f"A:{k}" for k, o in actual.items() if any(l.startswith(f"F:{DR}.") for l in leafs(o)) and not hb.is_ref_local(k)}
+        isl = lambda l, extra=extra: l.startswith(f"F:{DR}.") or l in extra
         for x in b.calls():
             cn = b.callee_name(x[1]) or ''
             if not cn.startswith('<time::Duration as std::ops::Sub'):
                 continue
             a = [simplify(F.origin.operand(b, o, x[0], len(b.blocks[x[0]]['s']))) for o in x[2]]
-            if not any(l.startswith(f"F:{DR}.") for o in a for l in leafs(o)):
+            if not any(isl(l) for o in a for l in leafs(o)):
                 continue
             n += 1
             la, lb = leafs(a[0]), leafs(a[1])
-            fa = {l for l in la if l.startswith(f"F:{DR}.")}
-            fb = {l for l in lb if l.startswith(f"F:{DR}.")}
+            fa = {l for l in la if isl(l)}
+            fb = {l for l in lb if isl(l)}
 
             def ordered(f, fa=fa, fb=fb):
                 if f[0] != 'rel':
                     return False
-                x_, y_ = {l for l in leafs(f[2]) if l.startswith(f"F:{DR}.")}, {l for l in leafs(f[3]) if l.startswith(f"F:{DR}.")}
+                x_, y_ = {l for l in leafs(f[2]) if isl(l)}, {l for l in leafs(f[3]) if isl(l)}
                 # rhs < lhs  (subtrahend smaller than minuend)
                 if f[1] in ('Lt', 'Le') and fb and fb <= x_ and fa <= y_ and not (fb <= y_ and fa <= x_ and fa != fb):
                     return True
